@@ -21,6 +21,8 @@ func init() {
 
 func runC03(p *eng.Prog, r *eng.Report, tier string) {
 	c := &cx{p, r, tier}
+	r19PermissionsAskedEveryTime(c, "C03.21")
+	r19SelectionAsReceived(c, "C03.20")
 	r18PermissionsNotDefaulted(c, "C03.19")
 	r17ParsedDataAlwaysRecorded(c, "C03.18")
 	// C03.17 (= C01.1 / C01.17, imported): the receiving side runs a selected feature only if it was advertised
